@@ -179,9 +179,12 @@ fn cmd_merge(args: &[String]) -> i32 {
             return 2;
         }
     }
-    let evaluations: u64 = parts.iter().map(|p| p.evaluations).sum();
+    let fuzz: Option<serde_json::Value> = arg_after(args, "--fuzz-json").and_then(|f| std::fs::read_to_string(f).ok()).and_then(|t| serde_json::from_str(&t).ok());
+    let fuzz_execs: u64 = fuzz.as_ref().and_then(|f| f.get("executions")).and_then(|v| v.as_u64()).unwrap_or(0);
+    let fuzz_nt: u64 = fuzz.as_ref().and_then(|f| f.get("distinct_nontrivial_in_final_corpus")).and_then(|v| v.as_u64()).unwrap_or(0);
+    let evaluations: u64 = parts.iter().map(|p| p.evaluations).sum::<u64>() + fuzz_execs;
     let by_constr: u64 = parts.iter().map(|p| p.nontrivial_by_construction).max().unwrap_or(0);
-    let distinct = fps.len() as u64 + by_constr;
+    let distinct = fps.len() as u64 + by_constr + fuzz_nt;
     let mut labels: BTreeMap<String, u64> = BTreeMap::new();
     let mut skipped: BTreeMap<String, u64> = BTreeMap::new();
     let mut known: BTreeMap<String, (u64, String)> = BTreeMap::new();
@@ -283,6 +286,7 @@ fn cmd_merge(args: &[String]) -> i32 {
             "skipped_unspecified": skipped,
             "known_findings": known_out,
             "per_profile": per_profile,
+            "fuzz": fuzz,
             "notes": notes,
         },
         "assumptions": props::assumptions(&id),
@@ -375,6 +379,52 @@ fn cmd_selftest() -> i32 {
     0
 }
 
+fn cmd_fuzz_decode(args: &[String]) -> i32 {
+    let (target, file) = (&args[0], &args[1]);
+    let Ok(data) = std::fs::read(file) else { return 2 };
+    match astrolabe_verif::fuzz::decode(target, &data) {
+        Some((property, check, case)) => {
+            let rep = Replay { property, check, profile: "fuzz".into(), seed: 0, case, expected: String::new(), actual: format!("libFuzzer artifact {}", file), signature: String::new(), shrunk: false };
+            println!("{}", serde_json::to_string_pretty(&rep).unwrap());
+            0
+        }
+        None => 2,
+    }
+}
+
+/// judges every file of a (final) fuzz corpus with the target's body: counts distinct non-trivial
+/// inputs and reports failures; prints one JSON object
+fn cmd_fuzz_corpus(args: &[String]) -> i32 {
+    install_panic_hook();
+    let (target, dir) = (&args[0], &args[1]);
+    let known: Vec<KnownEntry> = std::fs::read_to_string("/verif/known_findings.json")
+        .ok()
+        .and_then(|s| serde_json::from_str::<KnownFile>(&s).ok())
+        .map(|k| k.entries)
+        .unwrap_or_default();
+    let mut files = 0u64;
+    let mut fps: HashSet<u64> = HashSet::new();
+    let mut failures = Vec::new();
+    if let Ok(rd) = std::fs::read_dir(dir) {
+        for e in rd.filter_map(|e| e.ok()) {
+            let Ok(data) = std::fs::read(e.path()) else { continue };
+            files += 1;
+            if let Some((fp, f)) = astrolabe_verif::fuzz::judge_saved(target, &data) {
+                if let Some(fp) = fp {
+                    fps.insert(fp);
+                }
+                if let Some(f) = f {
+                    if !known.iter().any(|k| k.status == "known" && !f.sig.is_empty() && k.signature == f.sig) && failures.len() < 5 {
+                        failures.push(serde_json::json!({"file": e.path().display().to_string(), "signature": f.sig, "expected": f.expected, "actual": f.actual}));
+                    }
+                }
+            }
+        }
+    }
+    println!("{}", serde_json::json!({"files": files, "distinct_nontrivial": fps.len(), "failures": failures}));
+    0
+}
+
 fn main() {
     let args: Vec<String> = std::env::args().skip(1).collect();
     let code = match args.first().map(|s| s.as_str()) {
@@ -382,6 +432,8 @@ fn main() {
         Some("merge") => cmd_merge(&args[1..]),
         Some("replay") => cmd_replay(&args[1..]),
         Some("selftest") => cmd_selftest(),
+        Some("fuzz-decode") => cmd_fuzz_decode(&args[1..]),
+        Some("fuzz-corpus") => cmd_fuzz_corpus(&args[1..]),
         _ => {
             eprintln!("usage: vcheck run|merge|replay|selftest ...");
             2
